@@ -20,7 +20,7 @@ func runC19(c *Ctx) {
 	}
 	info := f.Info()
 	g := c.G(f)
-	msgs := paramObj(f, "msgs")
+	msgs := paramAt(f, 4)
 
 	// ------------------------------------------------------------------ R1
 	c.Rule("C19-R1", "same index basis: for every Template.Execute in chatPrompt the rendered messages are append(system, msgs[K:]...) where `system` was reset and collected by the nearest dominating loop over exactly the indices below that same K (system messages that precede the retained slice — not fewer, which drops them, and not more, which renders a system message inside the slice twice and overcounts tokens)")
